@@ -24,6 +24,19 @@ def memo_rules(text):
     return out
 
 
+def memo_checks(text):
+    """(rule, function name) for every @check on a memoized non-@leftrec rule whose function name occurs once in the text"""
+    out = []
+    for m in re.finditer(r"((?:@\w+(?:\([^)]*\))?\s+)*)(\w+)\s*=", text):
+        dirs = m.group(1)
+        if "@memoize" in dirs and "@leftrec" not in dirs:
+            for path in re.findall(r"@check\(([^)]*)\)", dirs):
+                fn = path.strip().split("::")[-1].strip()
+                if fn and len(re.findall(r"\b%s\b" % re.escape(fn), text)) == 1:
+                    out.append((m.group(2), fn))
+    return out
+
+
 def body_evals(trace, rules):
     evs = [e for e in trace.split(";") if e]
     counts = collections.Counter()
@@ -46,6 +59,7 @@ def check(out, ctx):
     failing_cached = 0
     probed = 0
     certified_cases = 0
+    check_oracle = 0
     for c in cases:
         rules = memo_rules(c.g.text)
         cnt = body_evals(c.impl["trace"], rules)
@@ -83,6 +97,21 @@ def check(out, ctx):
                 if k > 1:
                     out.violation("c06probe:" + key, "extern probe at the start of the only probed memoized body called %d times at one position (%s)" % (k, x),
                                   common.case_payload(c, st))
+        # "user check functions reachable only through such a rule are invoked at most once per position": a check
+        # function that occurs once in the grammar, on a memoized rule, is called at most as often as there
+        # are distinct offsets at which that rule was entered
+        for rname, fn in memo_checks(c.g.text):
+            calls = sum(1 for x in c.impl.get("hlog", "").split(";") if x.split(":")[0] == fn.encode().hex())
+            offs = set()
+            for e in c.impl["trace"].split(";"):
+                if e.startswith("S:"):
+                    _, nm, off = e.split(":")
+                    if bytes.fromhex(nm).decode() == rname:
+                        offs.add(off)
+            check_oracle += 1
+            if calls > len(offs):
+                out.violation("c06check:" + key, "check function %s of memoized rule %s was called %d times, the rule was entered at %d distinct offsets on %r"
+                              % (fn, rname, calls, len(offs), c.inp), common.case_payload(c, st, rule=rname, function=fn, calls=calls, offsets=sorted(offs)))
         if c.impl["k"] == "ERR" and "I:0" in c.impl["trace"]:
             failing_cached += 1
     # long runs (implementation only): corpus/grammars/<name>.long lists (rule, unit, n, tail); the input
@@ -124,7 +153,7 @@ def check(out, ctx):
     common.stream_coverage(out, st, cases,
                            "cases of grammars with @memoize rules; inputs biased to failing parses; non-trivial = at least one cache hit; distinct by (grammar, rule, input)",
                            lambda c: "I:0" in c.impl.get("trace", ""),
-                           {"memoized_body_evaluations_counted": total_evals, "failing_parses_with_cache_hit": failing_cached, "cases_with_single_probe_oracle": probed, "long_runs": long_runs, "long_run_evaluations_counted": long_evals,
+                           {"memoized_body_evaluations_counted": total_evals, "failing_parses_with_cache_hit": failing_cached, "cases_with_single_probe_oracle": probed, "check_function_call_counts_compared": check_oracle, "long_runs": long_runs, "long_run_evaluations_counted": long_evals,
                             "memo_grammars_that_are_instances_of_C06_at_most_once": sum(1 for g in st["grammars"] if g.meta["memo"] and not g.meta["leftrec"] and getattr(g, "wf", None) is True),
                             "memo_grammars_that_are_instances_of_C06_at_most_once_lr": sum(1 for g in st["grammars"] if g.meta["memo"] and getattr(g, "wf_once", None) is True),
                             "of_those_with_leftrec_rules": sum(1 for g in st["grammars"] if g.meta["memo"] and g.meta["leftrec"] and getattr(g, "wf_once", None) is True),
